@@ -43,6 +43,11 @@ SETTINGS = {
     "bw_loose": lambda: dict(sp.make_params("PM3", solver="adaptive", eps=1e-4), scf_backward=1),
     "pm6": lambda: sp.make_params("PM6", solver="adaptive", eps=1e-8),
     "am1_md": lambda: sp.make_params("AM1", solver="adaptive", eps=1e-8),
+    # same method/elements/tables as "am1", but one parameter column is supplied by the caller
+    "am1_learned": lambda: dict(sp.make_params("AM1", solver="adaptive", eps=1e-10), learned=["g_ss"]),
+    "am1_learned2": lambda: dict(sp.make_params("AM1", solver="adaptive", eps=1e-10), learned=["U_ss", "zeta_p"]),
+    # unsupported combination that is refused INSIDE the SCF step (NotImplementedError), not in Molecule()
+    "am1_uhf_pulay": lambda: sp.make_params("AM1", solver="pulay", eps=1e-8, uhf=True),
 }
 
 # job -> (kind, settings, molecule, extra)
@@ -60,6 +65,9 @@ JOBS = {
     "G": ("grad", "bw_loose", "HF"),
     "H": ("sp", "pm6", "H2S"),
     "X": ("sp", "am1", "CH3"),  # odd electron count under RHF: must raise
+    "X2": ("sp", "am1_uhf_pulay", "CH3"),  # refused inside the SCF loop: must raise, and must leave no trace
+    "AL": ("splearn", "am1_learned", "H2O"),  # caller supplies g_ss (table values): same numbers as plain AM1
+    "AL2": ("splearn", "am1_learned2", "H2O"),
     "M": ("md", "am1_md", "H2O", "bomd"),
     "L": ("md", "am1_md", "H2O", "xl"),
 }
@@ -116,6 +124,17 @@ def run_event(ev, ctx):
             molecule.verbose = False
             es(molecule)
             return _flat(sp.observe(molecule, es, ["Etot", "Hf", "force", "q", "e_mo", "e_gap", "cis_energies", "dm"]))
+        if kind == "splearn":
+            import torch as _t
+
+            names = list(params["learned"])
+            species = mol["species"]
+            vals = _table_values(params["method"], names, species)
+            lp = {n: _t.as_tensor(vals[n], dtype=_t.float64).clone().requires_grad_(True) for n in names}
+            molecule, es = sp.build(mol, params, learned=lp)
+            molecule.verbose = False
+            es(molecule, learned_parameters=lp)
+            return _flat(sp.observe(molecule, es, ["Etot", "Hf", "force", "q", "e_mo", "e_gap", "dm"]))
         if kind == "grad":
             if phase in ("both", "fwd"):
                 from seqm.basics import Energy
@@ -140,6 +159,32 @@ def run_event(ev, ctx):
     except Exception as e:  # noqa: BLE001
         return {"raised": np.asarray(type(e).__name__)}
     raise ValueError(ev)
+
+
+_TABLE_CACHE = {}
+
+
+def _table_values(method, names, species):
+    """values of the named parameters for each real atom, read from the shipped CSV by the harness itself"""
+    import csv
+    import os
+
+    from .. import REPO_ROOT
+
+    if method not in _TABLE_CACHE:
+        fn = os.path.join(REPO_ROOT, "seqm", "params", f"parameters_{method}_MOPAC.csv")
+        with open(fn) as fh:
+            rows = list(csv.reader(fh))
+        hdr = [h.strip() for h in rows[0]]
+        tab = {}
+        for r in rows[1:]:
+            try:
+                tab[int(r[0])] = {h: float(v) for h, v in zip(hdr[2:], r[2:]) if v.strip() != ""}
+            except ValueError:
+                continue
+        _TABLE_CACHE[method] = tab
+    tab = _TABLE_CACHE[method]
+    return {n: [tab[int(z)][n] for z in species if z > 0] for n in names}
 
 
 def fingerprint():
@@ -252,7 +297,7 @@ def run(chk, tier, seed):
     jobs = list(JOBS)
     events = []
     for j in jobs:
-        kinds = ["f"] if JOBS[j][0] in ("grad",) else ["f", "d"]
+        kinds = ["f"] if JOBS[j][0] in ("grad", "splearn") else ["f", "d"]
         if JOBS[j][0] == "sp" and j in ("A", "A2", "A3", "E", "E2", "H"):
             kinds.append("D")
         events += [f"{j}:{r}" for r in kinds]
@@ -269,16 +314,22 @@ def run(chk, tier, seed):
             chk.harness_error(f"event {e} is not reproducible across two fresh processes: {bad}")
             return
         REF[e] = a["obs"]
+    if "raised" not in REF["X2:f"]:
+        chk.violation({"part": "reference", "probe": "X2:f"}, "UHF + Pulay did not raise", replay={"seq": ["X2:f"]})
+    # a caller-supplied parameter column holding the table values must reproduce the plain calculation
+    w, bad = _cmp(REF["AL:f"], REF["A:f"], 1e-12, 1e-12)
+    if bad:
+        chk.violation({"part": "reference", "probe": "AL:f"}, f"AM1 H2O with caller-supplied g_ss (table values) differs from plain AM1: {bad}", replay={"seq": ["AL:f"]})
     if "raised" not in REF["X:f"]:
         chk.violation({"part": "reference", "probe": "X:f"}, "odd-electron RHF call did not raise", replay={"seq": ["X:f"]})
     # sequences
-    stateful = ["A:d", "A2:d", "A3:D", "E:d", "F:f", "G:f", "X:f", "L:f", "H:f", "C:f"]
+    stateful = ["A:d", "A2:d", "A3:D", "E:d", "F:f", "G:f", "X:f", "X2:f", "AL:f", "L:f", "H:f", "C:f"]
     probes_small = ["A:d", "A:D", "F:f", "E2:d", "L:f", "A2:d"]
     seqs = []
     if tier == "quick":
-        stateful = ["A2:d", "A3:D", "E:d", "G:f", "X:f", "L:f"]
-        probes_small = ["A:d", "F:f", "E2:d"]
-        probes1 = ["A:d", "A2:d", "E2:d", "F:f", "L:f", "H:d", "D:d", "A:D"]
+        stateful = ["A2:d", "A3:D", "E:d", "G:f", "X2:f", "AL:f"]
+        probes_small = ["A:d", "F:f", "AL2:f"]
+        probes1 = ["A:d", "A2:d", "E2:d", "F:f", "L:f", "H:d", "D:d", "A:D", "AL:f"]
     else:
         probes1 = events
     for p in probes1:  # depth 1: full event alphabet as prefix
